@@ -248,6 +248,12 @@ def run_C17(ctx, E):
     ctx.absorb_summary("harness-side De Bruijn orders 9..%d (not spec-decided)" % T(ctx, 9, 11), summ)
 
 
+def run_C19(ctx, E):
+    ctx.exhaustive = True
+    stage_mc_replay(ctx, E, "grid", "C19_MC", "C19_MC_%s.cfg" % ctx.tier, timeout=3000, heap="24g")
+    stage_record_trace(ctx, E, "calls", "C19_Trace", "C19_Trace.cfg", heap="8g")
+
+
 def run_C10(ctx, E):
     ctx.exhaustive = True
     for e in (("e1", "e2", "e4") if ctx.tier == "quick" else ("e1", "e2", "e3", "e4")):
@@ -265,6 +271,22 @@ _seqhash_note = ("trusted: TLC, community modules; the digest is uninterpreted i
                  "in the replayer by a from-scratch BLAKE3 transcription pinned by the official test vectors; "
                  "double-stranded inputs containing Z or (under type DNA) U are outside the strand clause and not replayed")
 PROPS = {
+    "C19": dict(run=run_C19,
+                technique="TLC exhaustive evaluation of a fixed-point nearest-neighbour specification (Melting.tla: "
+                          "ten duplex parameters closed under reverse complement, logarithm table on a grid) with "
+                          "monotonicity theorems; every (oligo, grid point) replayed on primers.SantaLucia / MeltingTemp "
+                          "/ MarmurDoty; TLC trace validation of random oligos to 200 nt and concentration sweeps",
+                level_text="every A/C/G/T oligo of length 2..6 (quick) / 2..8 (thorough) is a TLC state, evaluated at 27 "
+                           "(125) grid points of oligo 1 nM..1 mM x sodium 1 mM..1 M x magnesium 0..100 mM: the real dH "
+                           "must match exactly (0.1 kcal), dS within 0.01 + 0.0004 (N-1) cal/K, Tm within 0.05 K; "
+                           "MeltingTemp must equal SantaLucia at the default conditions bit for bit, MarmurDoty the "
+                           "formula, all results bit-identical in lower and mixed case; recorded calls on random oligos to "
+                           "200 nt (random case, self-complementary ones included) are recomputed by TLC at grid points, "
+                           "and off-grid sweeps of one concentration must give strictly increasing Tm and constant dH",
+                level_note="numeric territory: TLC decides the STRUCTURE of the formula (terms, neighbours, symmetry factor, "
+                           "constants) in 32-bit fixed point; natural logarithms come from a generated table "
+                           "(python math.log, milli-units); trusted: TLC, community modules",
+                rule="S->I: one case per oligo with all grid points; I->S: grid events + sweep events"),
     "C17": dict(run=run_C17,
                 technique="TLC model checking of the barcode selection loop (Barcodes.tla, one action per attempt) over "
                           "every small input with the property as invariant; the real function is run on every "
